@@ -179,6 +179,8 @@ def short(r):
 
 
 def run_suite(ctx, vh, name, args, shard=400, label=None):
+    import time
+    t0 = time.time()
     build, key, what = SUITES[name]
     label = label or name
     rows = ctx.vh_jsonl(vh, "eiocodec", ["-mode", name, "-seed", ctx.seed] + args)
@@ -194,6 +196,7 @@ def run_suite(ctx, vh, name, args, shard=400, label=None):
         ctx.count(1, nontrivial_key=k, dist=d)
     ctx.sample({"suite": label, "case": rows[len(rows) // 2]}, limit=8)
     bad_oracle, bad_agree = eval2(ctx, "c11_" + label.replace("-", "_"), terms, "oracle_" + name, "agree_" + name, shard)
+    ctx.note("suite %s: %d cases in %.1fs" % (label, len(rows), time.time() - t0))
     ctx.obligation("correspondence:%s" % label, "correspondence", not bad_agree,
                    "%d cases, %d disagree" % (len(rows), len(bad_agree)))
     ctx.obligation("oracle:%s" % label, "oracle", not bad_oracle, "%d cases, %d fail" % (len(rows), len(bad_oracle)))
@@ -227,17 +230,17 @@ def run(ctx):
     vh = ctx.go_build()
     if vh is None:
         return
-    run_suite(ctx, vh, "b64", ["-n", 300 if q else 6000], shard=450 if q else 1000)
-    run_suite(ctx, vh, "pkt", ["-n", 120 if q else 3000], shard=100 if q else 400)
-    run_suite(ctx, vh, "dec", ["-n", 500 if q else 12000, "-ex", 3 if q else 5], shard=700 if q else 2500)
-    run_suite(ctx, vh, "pay", ["-n", 100 if q else 3000], shard=50 if q else 400)
-    run_suite(ctx, vh, "paydec", ["-n", 300 if q else 6000], shard=200 if q else 1000)
-    run_suite(ctx, vh, "wt", ["-n", 100 if q else 1500] + ([] if q else ["-thorough"]), shard=25 if q else 40)
-    run_suite(ctx, vh, "wtdec", ["-n", 400 if q else 8000], shard=300 if q else 1200)
+    run_suite(ctx, vh, "b64", ["-n", 150 if q else 6000], shard=350 if q else 1000)
+    run_suite(ctx, vh, "pkt", ["-n", 60 if q else 3000], shard=90 if q else 400)
+    run_suite(ctx, vh, "dec", ["-n", 300 if q else 12000, "-ex", 3 if q else 5], shard=600 if q else 2500)
+    run_suite(ctx, vh, "pay", ["-n", 60 if q else 3000], shard=31 if q else 400)
+    run_suite(ctx, vh, "paydec", ["-n", 150 if q else 6000], shard=200 if q else 1000)
+    run_suite(ctx, vh, "wt", ["-n", 60 if q else 1500] + ([] if q else ["-thorough"]), shard=10 if q else 40)
+    run_suite(ctx, vh, "wtdec", ["-n", 200 if q else 8000], shard=260 if q else 1200)
     if q:
         # every length around the form boundaries + a stride over the rest
-        run_suite(ctx, vh, "wtlen", ["-lo", 0, "-hi", 400, "-stride", 1], shard=2000, label="wtlen-low")
-        run_suite(ctx, vh, "wtlen", ["-lo", 65300, "-hi", 65800, "-stride", 1], shard=2000, label="wtlen-boundary")
-        run_suite(ctx, vh, "wtlen", ["-lo", 401, "-hi", 70000, "-stride", 97], shard=2000, label="wtlen-stride")
+        run_suite(ctx, vh, "wtlen", ["-lo", 0, "-hi", 300, "-stride", 1], shard=300, label="wtlen-low")
+        run_suite(ctx, vh, "wtlen", ["-lo", 65400, "-hi", 65700, "-stride", 1], shard=300, label="wtlen-boundary")
+        run_suite(ctx, vh, "wtlen", ["-lo", 301, "-hi", 70000, "-stride", 263], shard=300, label="wtlen-stride")
     else:
         run_suite(ctx, vh, "wtlen", ["-lo", 0, "-hi", 70000, "-stride", 1], shard=5000, label="wtlen-all")
